@@ -34,7 +34,10 @@ Prots == << [orig |-> <<>>, hdr |-> EmptyHeader],                 \* 1 built emp
             [orig |-> <<>>, hdr |-> [EmptyHeader EXCEPT !.kid = <<49>>]],                                       \* 13
             [orig |-> <<>>, hdr |-> [EmptyHeader EXCEPT !.iv = <<1, 2>>]],                                      \* 14
             [orig |-> <<>>, hdr |-> [EmptyHeader EXCEPT !.piv = <<1, 2>>]],                                     \* 15
-            Decoded(<<161, 24, 99, 250, 127, 192, 0, 0>>) >>      \* 16 decoded {99: NaN as f32}: the parsed view is not equal to itself
+            Decoded(<<161, 24, 99, 250, 127, 192, 0, 0>>),        \* 16 decoded {99: NaN as f32}: the parsed view is not equal to itself
+            (* the only field holds the registry's value 0 (round 6: an emptiness test that reads "Reserved" as "unset") *)
+            [orig |-> <<>>, hdr |-> [EmptyHeader EXCEPT !.alg = <<Assigned("Algorithm", "Reserved")>>]],                  \* 17 {1: 0}
+            [orig |-> <<>>, hdr |-> [EmptyHeader EXCEPT !.ct = <<Assigned("CoapContentFormat", "TextPlainUtf8")>>]] >>    \* 18 {3: 0}
 NP == Len(Prots)
 SignIdx == IF Fam = "sig" THEN {1, 2, 3, 4, 6, 7, 9, 10, 13, 15} ELSE {1}     \* the signer header matters to the sig family only
 BuiltNonEmpty(p) == p.orig = <<>> /\ ~Header_IsEmpty(p.hdr)
